@@ -227,6 +227,13 @@ func genOpenSet(t *rapid.T, maxN int, numCPU int) openSet {
 	return os
 }
 
+func maxInt(a, b int) int {
+	if a > b {
+		return a
+	}
+	return b
+}
+
 func minInt(a, b int) int {
 	if a < b {
 		return a
